@@ -9,7 +9,21 @@ from core import Case, CheckBroken
 
 PID = "C01"
 LEAN_MODULES = ["KrroodVerif.Props.C01"]
-THEOREMS: list = []
+THEOREMS = [
+    "KrroodVerif.Eql.C01_cover",
+    "KrroodVerif.Eql.C01_sound_complete_partial",
+    "KrroodVerif.Eql.C01_sound_complete_F1_partial",
+    "KrroodVerif.Eql.satE_build",
+    "KrroodVerif.Eql.C01_cex_negUnion",
+    "KrroodVerif.Eql.C01_cex_selectIndependent",
+    "KrroodVerif.Eql.C01_cex_falsyBound",
+    "KrroodVerif.Eql.C01_cex_existsDedup",
+    "KrroodVerif.Eql.C01_cex_forAllEmpty",
+    "KrroodVerif.Eql.C01_cex_existsKeyError",
+    "KrroodVerif.Eql.C01_cex_orOfExists",
+    "KrroodVerif.Eql.C01_cex_emptyDomain",
+    "KrroodVerif.Eql.C01_cex_flattenNot",
+]
 MODEL_FUNCTION = "Eql.evalQuery / Eql.eval / Eql.build (Model/Eql.lean)"
 TRUSTED = [
     "Lean 4.33 kernel; axioms of each theorem listed under coverage.theorems",
